@@ -53,13 +53,29 @@ func VerifC10gMapSession() {
 	case second == len(c10gFuncs):
 		sel += ",g"
 	}
-	c10Payload = "map select " + sel + " from . group by g interval 2"
-	h.Write([]byte("protocol 4.1 base64 @;"))
-	verifrt.Sleep(time.Second)
-	c10Payload = "cat:quiet=true " + path + " regex:noop "
-	h.Write([]byte("protocol 4.1 base64 @;"))
-	verifrt.Sleep(20 * time.Second)
-	verifrt.Assert(strings.Contains(string(got), "AGGREGATE"), "a valid mapreduce session over matching lines sent no aggregate")
+	mapCmd := "map select " + sel + " from . group by g interval 2"
+	catCmd := "cat:quiet=true " + path + " regex:noop "
+	if verifrt.Bool("read-first") {
+		// a client of its own making: the read is sent first and is still running (a slow
+		// disk: 2 s per line) when the valid map command arrives
+		fs.VerifFiles[path].Chunks = []int{16, 15, 10}
+		fs.VerifFiles[path].Pace = 2 * time.Second
+		c10Payload = catCmd
+		h.Write([]byte("protocol 4.1 base64 @;"))
+		verifrt.Sleep(time.Second)
+		c10Payload = mapCmd
+		h.Write([]byte("protocol 4.1 base64 @;"))
+		verifrt.Sleep(20 * time.Second)
+		verifrt.Reach("map-after-read")
+	} else {
+		c10Payload = mapCmd
+		h.Write([]byte("protocol 4.1 base64 @;"))
+		verifrt.Sleep(time.Second)
+		c10Payload = catCmd
+		h.Write([]byte("protocol 4.1 base64 @;"))
+		verifrt.Sleep(20 * time.Second)
+		verifrt.Assert(strings.Contains(string(got), "AGGREGATE"), "a valid mapreduce session over matching lines sent no aggregate")
+	}
 	h.VerifShutdown()
 	verifrt.Sleep(5 * time.Second)
 	verifrt.Reach("survived")
